@@ -175,3 +175,54 @@ impl Payload for Tracked {
         ctx.0.borrow().clones_alive
     }
 }
+
+// ------------------------------------------------------------------------------------------------
+// further serialisable payload shapes for C16: the derives under test must round-trip whatever the
+// payload looks like on the wire (a bare integer, an optional value that may be `null`, a string).
+
+macro_rules! wire_payload {
+    ($name:ident, $inner:ty, $enc:expr, $dec:expr) => {
+        #[derive(Clone, PartialEq, Eq, Debug, Serialize, Deserialize)]
+        #[serde(transparent)]
+        pub struct $name(pub $inner);
+
+        impl Payload for $name {
+            type Ctx = ();
+            const TRACKS_DROPS: bool = false;
+            fn make(_: &(), serial: u64, val: u32) -> Self {
+                let enc: fn(u64) -> $inner = $enc;
+                $name(enc(serial << 24 | (val as u64 & 0xff_ffff)))
+            }
+            fn serial(&self) -> u64 {
+                let dec: fn(&$inner) -> u64 = $dec;
+                dec(&self.0) >> 24
+            }
+            fn val(&self) -> u32 {
+                let dec: fn(&$inner) -> u64 = $dec;
+                (dec(&self.0) & 0xff_ffff) as u32
+            }
+            fn set_val(&mut self, v: u32) {
+                let s = self.serial();
+                *self = Self::make(&(), s, v);
+            }
+            #[cfg(feature = "deser")]
+            fn roundtrip(arena: &indextree::Arena<Self>) -> Option<Result<(indextree::Arena<Self>, usize), String>> {
+                let r = (|| {
+                    let txt = serde_json::to_string(arena).map_err(|e| format!("serialize: {e}"))?;
+                    let copy: indextree::Arena<$name> = serde_json::from_str(&txt).map_err(|e| format!("deserialize: {e}"))?;
+                    let txt2 = serde_json::to_string(&copy).map_err(|e| format!("serialize copy: {e}"))?;
+                    if txt2 != txt {
+                        return Err("the copy serialises to a different text than the original".to_string());
+                    }
+                    Ok((copy, txt.len()))
+                })();
+                Some(r)
+            }
+        }
+    };
+}
+
+wire_payload!(IntP, u64, |x| x, |x| *x);
+wire_payload!(OptP, Option<u64>, |x| Some(x), |x| x.unwrap_or(u64::MAX));
+wire_payload!(StrP, String, |x| x.to_string(), |x| x.parse().unwrap_or(u64::MAX));
+wire_payload!(UnitLikeP, (u64, ()), |x| (x, ()), |x| x.0);
